@@ -43,6 +43,16 @@ def string_literal(c):
     c.replay("code", code=REPLAY_STRING)
 
 
+def expression_keywords():
+    """the keyword table of the real expression tokenizer (liquid.builtin.expressions._tokenize._keywords),
+    const-evaluated from the source on every run"""
+    mod = load.get_module("liquid.builtin.expressions._tokenize")
+    for st_ in mod.tree.body:
+        if isinstance(st_, ast.Assign) and flow.dotted(st_.targets[0]) == "_keywords":
+            return {flow.const_eval(mod, e) for e in st_.value.args[0].elts}
+    raise AssertionError("_keywords not found")
+
+
 @contract("liquid.builtin.expressions.path:Path.__str__", prop="C04")
 def path_str(c):
     """a string segment is printed `.name` only when it is a property name, otherwise bracketed
@@ -60,10 +70,18 @@ def path_str(c):
         q = z3.If(z3.Contains(v, sq), dq, sq)
         return z3.Concat(z3.StringVal("["), q, v, q, z3.StringVal("]"))
 
+    # a bare segment is read back by the expression tokenizer, which turns a WORD that is in its
+    # keyword table into a keyword token (`a.empty`, `true`): only non-keywords may be printed bare
+    kws = sorted(expression_keywords())
+    assert len(kws) >= 10, kws
+
+    def bare(v):
+        return z3.And(word(v), *[v != z3.StringVal(k) for k in kws])
+
     def post(r):
         res = r.value.t
-        want_root = z3.If(word(root.t), root.t, quoted(root.t))
-        want_seg = z3.If(word(seg.t), z3.Concat(z3.StringVal("."), seg.t), quoted(seg.t))
+        want_root = z3.If(bare(root.t), root.t, quoted(root.t))
+        want_seg = z3.If(bare(seg.t), z3.Concat(z3.StringVal("."), seg.t), quoted(seg.t))
         n = idx.t
         want_idx = z3.Concat(z3.StringVal("["), z3.If(n < 0, z3.Concat(z3.StringVal("-"), z3.IntToStr(-n)), z3.IntToStr(n)), z3.StringVal("]"))
         return res == z3.Concat(want_root, want_seg, want_idx)
@@ -79,10 +97,11 @@ def run(m):
     env = Environment()
     d = {"back\\slash": 1, "a b": 2}
     bad = []
-    for src in ("{{ site['back\\slash'] }}", "{{ ['a b'] }}", "{{ site['a b'] }}"):
+    for src in ("{{ site['back\\slash'] }}", "{{ ['a b'] }}", "{{ site['a b'] }}", "{{ site['empty'] }}", "{{ ['true'] }}", "{{ site['with'].x }}", "{{ ['not'] }}"):
         try:
             t = env.from_string(src); t2 = env.from_string(str(t))
-            if t.render(site=d, **{"a b": 3}) != t2.render(site=d, **{"a b": 3}) or str(t2) != str(t):
+            data = dict(site=dict(d, empty="E", **{"with": {"x": "W"}}), **{"a b": 3, "true": "T", "not": "N"})
+            if t.render(**data) != t2.render(**data) or str(t2) != str(t):
                 bad.append((src, str(t)))
         except Exception as e:
             bad.append((src, type(e).__name__))
